@@ -29,6 +29,8 @@ import (
 	"syscall"
 	"time"
 
+	"github.com/gorilla/websocket"
+
 	"verif/harness/engines/chtcp"
 	"verif/harness/engines/run"
 	"verif/harness/props/reg"
@@ -65,6 +67,8 @@ type instCfg struct {
 	// HTTPExtras: the config file also sets every routing-related http setting to a non-default value
 	// (api_prefix, api_prom_prefix, websocket, gzip off, debug)
 	HTTPExtras bool `json:"http_extras,omitempty"`
+	// Procs: GOMAXPROCS of the binary (0 = all cores): a container with one CPU
+	Procs int `json:"procs,omitempty"`
 }
 
 type route struct {
@@ -380,6 +384,9 @@ func startOnce(c *run.Ctx, bin string, cfg instCfg) (in *instance, retry bool) {
 	}
 	for _, k := range cfg.Knobs {
 		env = append(env, fmt.Sprintf("%s=%d", k, freePort()))
+	}
+	if cfg.Procs > 0 {
+		env = append(env, fmt.Sprintf("GOMAXPROCS=%d", cfg.Procs))
 	}
 	cmd.Env = env
 	lf, _ := os.Create(in.logf)
@@ -1025,11 +1032,41 @@ func runInstance(c *run.Ctx, bin string, cfg instCfg, flt *filter, st *stats, ro
 		}
 	}
 
+	// history: authorized live-tail sessions (a websocket upgrade takes the connection over from the HTTP server) from
+	// a client that accepts gzip, before the unauthorized requests and again every four hundred of them: whatever such a
+	// session leaves behind in the process must not open the door to the next request
+	tailTpl := ""
+	for _, t := range targets {
+		if strings.HasSuffix(t.r.Template, "/tail") && t.method == "GET" {
+			tailTpl = t.r.Template
+		}
+	}
+	tailSessions := func(n int) {
+		for i := 0; i < n && tailTpl != ""; i++ {
+			d := websocket.Dialer{HandshakeTimeout: 3 * time.Second}
+			h := http.Header{"Authorization": right, "Accept-Encoding": {"gzip"}}
+			u := "ws" + strings.TrimPrefix(in.base, "http") + concretePath(tailTpl) + "?query=%7Ba%3D%22b%22%7D"
+			conn, _, err := d.Dial(u, h)
+			if err != nil {
+				c.Event("tail sessions refused", 1)
+				continue
+			}
+			conn.SetReadDeadline(time.Now().Add(150 * time.Millisecond))
+			conn.ReadMessage()
+			conn.Close()
+			c.Floor("authorized tail sessions opened before unauthorized requests", 0, 1)
+		}
+	}
+	tailSessions(4)
 	phaseStart := in.srv.Seq()
 	cells := 0
 	for _, t := range targets {
 		for _, hc := range cls {
 			for _, cb := range cbs {
+				if cells%400 == 399 {
+					tailSessions(2)
+					phaseStart = in.srv.Seq()
+				}
 				if !flt.match(cfg.Mode, cfg.Name, t.r.Template, t.method, hc.Name, cb.Name) {
 					continue
 				}
@@ -1338,7 +1375,7 @@ func configs(c *run.Ctx) []instCfg {
 	// A: awkward credentials (colon, space, percent, equals, non-ASCII), CORS on
 	// B: plain credentials, CORS off
 	a := instCfg{Name: "A", Login: "Adm-" + randWord(c, "loginA", 5) + "@qryn", Pass: "p" + randWord(c, "passA", 4) + ":w x%=" + "ß" + randWord(c, "passA2", 3) + "Z", Cors: "*"}
-	b := instCfg{Name: "B", Login: "qryn" + randWord(c, "loginB", 4), Pass: "Secret" + randWord(c, "passB", 6)}
+	b := instCfg{Name: "B", Login: "qryn" + randWord(c, "loginB", 4), Pass: "Secret" + randWord(c, "passB", 6), Procs: 1}
 	out := []instCfg{}
 	for _, mode := range []string{"writer", "reader"} {
 		for _, k := range []instCfg{a, b} {
